@@ -102,7 +102,8 @@ Definition check_common (kd : kind) (st : sstate) (o : op) (now : obs) (ev : lis
 Definition check_sides (kd : kind) (st : sstate) (o : op) (now : obs) (ev : list event) : bool :=
   (if ss_cur st then nodes_eqb (ob_a now) (ob_a (ss_obs st)) else nodes_eqb (ob_b now) (ob_b (ss_obs st))) &&
   forallb (elem_ok kd o (negb (ss_cur st)) (ss_next st) ev (ob_a (ss_obs st)) (ob_b (ss_obs st))) (ob_a now) &&
-  forallb (elem_ok kd o (ss_cur st) (ss_next st) ev (ob_b (ss_obs st)) (ob_a (ss_obs st))) (ob_b now).
+  forallb (elem_ok kd o (ss_cur st) (ss_next st) ev (ob_b (ss_obs st)) (ob_a (ss_obs st))) (ob_b now) &&
+  (if ss_cur st then removed_ok o (ob_b (ss_obs st)) (ob_b now) else removed_ok o (ob_a (ss_obs st)) (ob_a now)).
 
 Lemma check_step_noswap kd st o now ev :
   o <> OSwap -> check_step kd st o now ev = check_common kd st o now ev && check_sides kd st o now ev.
@@ -167,14 +168,16 @@ Proof.
   destruct (cont_op o) eqn:Eo.
   - pose proof (sf_cur _ _ _ _ _ F Eo) as Hc. pose proof (sf_other _ _ _ _ _ F Eo) as Ho.
     pose proof (sf_nodes _ _ _ _ _ F Eo) as Hn. unfold sel, other in *. rewrite Hc in *.
+    pose proof (sf_lost _ _ _ _ _ F Eo) as Hl. unfold sel in Hl. rewrite Hc in Hl.
     destruct (s_cur st); cbn [negb].
-    + rewrite Ho. rewrite nodes_eqb_refl, forallb_untouched by exact Hnda. cbn [andb].
+    + rewrite Ho. rewrite nodes_eqb_refl, forallb_untouched by exact Hnda. cbn [andb]. rewrite Hl, andb_true_r.
       apply forallb_forall. intros n' Hn'. eapply elem_ok_selected; eauto.
-    + rewrite Ho. rewrite nodes_eqb_refl. cbn [andb]. apply andb_true_iff. split.
+    + rewrite Ho. rewrite nodes_eqb_refl. cbn [andb]. rewrite Hl, andb_true_r. apply andb_true_iff. split.
       * apply forallb_forall. intros n' Hn'. eapply elem_ok_selected; eauto.
       * apply forallb_untouched. exact Hndb.
   - unfold step in E. destruct o; try discriminate; [|congruence].
     injection E as <- <-. cbn [s_a s_b].
+    unfold removed_ok. cbn [removal_budget]. rewrite !missing_refl.
     destruct (s_cur st); rewrite nodes_eqb_refl, !forallb_untouched; auto.
 Qed.
 
